@@ -495,6 +495,18 @@ def canonical_apis(doc):
     for b in doc.get('bodies', []):
         for blk in b['blocks']:
             t = blk['term']
+            if t.get('k') == 'call' and len(t.get('args', [])) == 2:
+                f2 = (t.get('func') or {}).get('fn') or {}
+                # dst.clone_from_slice(src) on byte slices is dst.copy_from_slice(src): same length panic, same bytes
+                if f2.get('path') == 'core::slice::<impl [T]>::clone_from_slice' and (f2.get('generic_args') or [None])[0] == 'u8' and not f2.get('local'):
+                    for k_ in ('path', 'key', 'path_args', 'name'):
+                        if isinstance(f2.get(k_), str):
+                            f2[k_] = f2[k_].replace('clone_from_slice', 'copy_from_slice')
+                    r2 = f2.get('resolved') or {}
+                    for k_ in ('path', 'key'):
+                        if isinstance(r2.get(k_), str):
+                            r2[k_] = r2[k_].replace('clone_from_slice', 'copy_from_slice')
+                    n += 1
             if t.get('k') != 'call' or len(t.get('args', [])) != 1:
                 continue
             f = t.get('func') or {}
